@@ -1,4 +1,139 @@
-import Mwp.Model.Analysis
-import Mwp.Spec.Calculus
+/-
+  C02 — A function is reported infinite exactly when no derivation exists, in both modes.
+  Model: `Analysis.func` (Mwp/Model/Analysis.lean); reference: `Spec.sem` (Mwp/Spec/Calculus.lean).
+  Property theorems only; the work is in Mwp/Lemmas/FuncRefine*.lean, which lifts the statement-level
+  refinement `compute_refines_partial` (Mwp/Lemmas/RefineLoops.lean) to `cmds` / `func`, adds the
+  syntactic delta invariant (FuncRefineDelta*.lean) needed by `C04.generate_exact`, and the
+  well-formedness of the delta-graph history (FuncRefineGhost*.lean) needed by `C11.collapse_sound`.
+
+  Side conditions: `Refine.FuncOk node` (one decidable check, Mwp/Lemmas/FuncRefineCore.lean):
+  the node is a function definition whose body is a block of statements of the supported fragment,
+  `namesOkA` / `castOkA` hold for them, the loop guards of the reading are fresh (`guardsFresh`), and
+  every variable of the reading is among the function's recorded variables (excludes only the
+  reserved names `true` / `false` used as variables).  Success of `func` is a hypothesis (the
+  fixpoint loops of the model are fuelled).
+-/
+import Mwp.Lemmas.FuncRefine
 namespace Mwp.Props.C02
+open Mwp Mwp.Analysis Mwp.Spec Mwp.Refine
+
+/-- **C02.**  The function is reported infinite exactly when, in the calculus, every choice vector
+    makes some loop side condition fail -- in both modes (`stop = true`: early stop through the
+    delta graph; `stop = false`: run to completion).  The universe is the reported variable list. -/
+theorem infinite_iff_no_derivation (node : Node) (stop : Bool) (r : FuncRes)
+    (hok : FuncOk node = true) (h : func node stop = .ok r)
+    (cmd : Cmd) (hd : desugarFunc node = some cmd) :
+    r.infinite = true ↔
+      ∀ c : Choice, c.length = cmd.arity → (∀ v ∈ c, v < 3) → sem r.variables cmd 0 c = none := by
+  obtain ⟨vs, _, _, _, hsub, hnd, hiff, _⟩ := func_sem node stop r hok h cmd hd
+  exact hiff r.variables hnd hsub
+
+/-- the same over ANY duplicate-free universe containing the function's variables: whether a
+    derivation exists does not depend on the universe -/
+theorem infinite_iff_no_derivation_any_universe (node : Node) (stop : Bool) (r : FuncRes)
+    (hok : FuncOk node = true) (h : func node stop = .ok r)
+    (cmd : Cmd) (hd : desugarFunc node = some cmd) (vs : List String)
+    (hvs : Syntax.variables node = .ok vs) (U : List String) (hU : U.Nodup) (hsub : ∀ v ∈ vs, v ∈ U) :
+    r.infinite = true ↔
+      ∀ c : Choice, c.length = cmd.arity → (∀ v ∈ c, v < 3) → sem U cmd 0 c = none := by
+  obtain ⟨vs', hvs', _, _, _, _, hiff, _⟩ := func_sem node stop r hok h cmd hd
+  have : vs' = vs := by rw [hvs] at hvs'; exact (Except.ok.inj hvs').symm
+  subst this
+  exact hiff U hU hsub
+
+/-- the verdict does not depend on the mode -/
+theorem verdict_mode_independent (node : Node) (hok : FuncOk node = true) (r1 r2 : FuncRes)
+    (h1 : func node true = .ok r1) (h2 : func node false = .ok r2) : r1.infinite = r2.infinite := by
+  obtain ⟨_, _, cs, _, _, _, _, _, _, _, _, hd, _⟩ := FuncOk.unpack hok
+  obtain ⟨vs, hvs, hnd, _, _, _, hiff1, _⟩ := func_sem node true r1 hok h1 _ hd
+  have i1 := hiff1 vs hnd (fun v hv => hv)
+  have i2 := infinite_iff_no_derivation_any_universe node false r2 hok h2 _ hd vs hvs vs hnd (fun v hv => hv)
+  exact Bool.eq_iff_iff.2 (i1.trans i2.symm)
+
+/-- run to completion, "infinite" is never an early exit: relation and index are those of the
+    whole body (a finite result reports them in either mode) -/
+theorem finite_reports_whole_body (node : Node) (stop : Bool) (r : FuncRes)
+    (hok : FuncOk node = true) (h : func node stop = .ok r)
+    (cmd : Cmd) (hd : desugarFunc node = some cmd) (hf : r.infinite = false) :
+    r.index = cmd.arity ∧ ∃ rel, r.relation = some rel ∧ rel.vars = r.variables := by
+  obtain ⟨_, _, _, _, _, _, _, hfin⟩ := func_sem node stop r hok h cmd hd
+  obtain ⟨rel, _, hr, _, _, hv, hi, _⟩ := hfin hf
+  exact ⟨hi, rel, hr, hv⟩
+
+/-- a function reported not infinite has a valid choice: the choice object is there, yields a
+    first choice, and accepts it -/
+theorem finite_has_valid_choice (node : Node) (stop : Bool) (r : FuncRes)
+    (hok : FuncOk node = true) (h : func node stop = .ok r) (hf : r.infinite = false) :
+    ∃ ch f, r.choices = some ch ∧ Choices.first ch = .ok (some f) ∧ Choices.isValid ch f = true := by
+  obtain ⟨_, _, cs, _, _, _, _, _, _, _, _, hd, _⟩ := FuncOk.unpack hok
+  obtain ⟨_, _, _, _, _, _, _, hfin⟩ := func_sem node stop r hok h _ hd
+  obtain ⟨_, ch, _, hc, _, _, _, _, ⟨f, h1, _, _, h2⟩, _⟩ := hfin hf
+  exact ⟨ch, f, hc, h1, h2⟩
+
+/-- ... and at that first choice the calculus derives a matrix -/
+theorem first_choice_is_a_derivation (node : Node) (stop : Bool) (r : FuncRes)
+    (hok : FuncOk node = true) (h : func node stop = .ok r)
+    (cmd : Cmd) (hd : desugarFunc node = some cmd) (hf : r.infinite = false) :
+    ∃ ch f, r.choices = some ch ∧ Choices.first ch = .ok (some f) ∧
+      ∃ k M, sem r.variables cmd 0 (relabel cmd f) = some (k, M) := by
+  obtain ⟨_, _, _, _, hsub, hnd, _, hfin⟩ := func_sem node stop r hok h cmd hd
+  obtain ⟨rel, ch, _, hc, _, _, _, hval, ⟨f, h1, hl, h3, h2⟩, hA⟩ := hfin hf
+  refine ⟨ch, f, hc, h1, ?_⟩
+  have A := hA r.variables hnd hsub f (valid_of_vec hl h3) _ (relabel_relab cmd f)
+  exact A.some_iff_fin.2 ((hval f hl h3).1 h2)
+
+/-- the side condition `FuncOk` follows from checks on the syntax tree alone -/
+theorem funcOk_from_syntax (d : Node) (l : List Node) (cs : List Cmd) (hdl : desugarL l = some cs)
+    (hn : namesOkAL l = true) (hc : castOkAL l = true) (hp : guardsPlainL l = true)
+    (hres : ∀ v ∈ varsL cs, v ≠ "" ∧ v ∉ Gen.reserved) :
+    FuncOk (.funcDef d (.compound (some l))) = true :=
+  funcOk_of_plain d l cs hdl hn hc hp hres
+
+/-! ## non-vacuity -/
+
+private def fn (body : List Node) : Node :=
+  .funcDef (.decl (some "f") (.funcDecl (some (.paramList
+    [.decl (some "x") .typeDecl none, .decl (some "y") .typeDecl none]))) none) (.compound (some body))
+/-- `int f(int x, int y){ while (x < 10) { x = y + y; } }` -- finite, two of three choices fail -/
+private def fFin : Node := fn [.while_ (.binop "<" (.id "x") (.const "int" "10"))
+  (.compound (some [.assign "=" (.id "x") (.binop "+" (.id "y") (.id "y"))]))]
+/-- `int f(int x, int y){ while (x < 10) { x = x + y; } }` -- infinite -/
+private def fInf : Node := fn [.while_ (.binop "<" (.id "x") (.const "int" "10"))
+  (.compound (some [.assign "=" (.id "x") (.binop "+" (.id "x") (.id "y"))]))]
+private def cFin : Cmd := .seq [.while_ (.seq [.bin "+" "x" (.var "y") (.var "y")])]
+private def cInf : Cmd := .seq [.while_ (.seq [.bin "+" "x" (.var "x") (.var "y")])]
+
+-- the hypotheses hold
+example : FuncOk fFin = true := by decide
+example : FuncOk fInf = true := by decide
+example : desugarFunc fFin = some cFin := by rfl
+example : desugarFunc fInf = some cInf := by rfl
+-- both modes return; the verdicts are the expected ones
+example : (func fFin true).toOption.map (fun r => (r.infinite, r.index, r.variables))
+    = some (false, 1, ["x", "y"]) := by decide
+example : (func fFin false).toOption.map (fun r => (r.infinite, r.index, r.variables))
+    = some (false, 1, ["x", "y"]) := by decide
+example : (func fInf true).toOption.map (fun r => (r.infinite, r.variables)) = some (true, ["x", "y"]) := by decide
+example : (func fInf false).toOption.map (fun r => (r.infinite, r.variables)) = some (true, ["x", "y"]) := by decide
+-- the finite function: some vectors fail, one derives
+example : sem ["x", "y"] cFin 0 [0] = none ∧ sem ["x", "y"] cFin 0 [1] = none ∧
+    sem ["x", "y"] cFin 0 [2] = some (1, [[.m, .o], [.w, .m]]) := by decide
+-- the infinite function: the theorem gives failure at every vector, in both modes
+example (stop : Bool) : ∀ r, func fInf stop = .ok r →
+    ∀ c : Choice, c.length = 1 → (∀ v ∈ c, v < 3) → sem r.variables cInf 0 c = none := by
+  intro r h
+  have hi : r.infinite = true := by
+    have : ∀ stop, (func fInf stop).toOption.map (·.infinite) = some true := by decide
+    have := this stop
+    rw [h] at this; exact Option.some.inj this
+  exact (infinite_iff_no_derivation fInf stop r (by decide) h cInf (by rfl)).1 hi
+-- the finite function: the theorem gives a valid first choice at which the calculus derives a matrix
+example : ∀ r, func fFin true = .ok r → ∃ ch f, r.choices = some ch ∧ Choices.first ch = .ok (some f) ∧
+    ∃ k M, sem r.variables cFin 0 (relabel cFin f) = some (k, M) := by
+  intro r h
+  have hf : r.infinite = false := by
+    have : (func fFin true).toOption.map (·.infinite) = some false := by decide
+    rw [h] at this; exact Option.some.inj this
+  exact first_choice_is_a_derivation fFin true r (by decide) h cFin (by rfl) hf
+
 end Mwp.Props.C02
